@@ -99,12 +99,13 @@ def case : P String := do
   let edges ← listOf (do let id ← nat; let d ← float; pure ({ id := id, distance := d } : Edge Float))
   let bcd ← float
   let hm ← float
+  let socOverride ← optOf float
   endOfLine
   match getMaxSpeed tbl, v0.updateFromQuery q with
   | .error _, _ => pure "engine_rejected"
   | .ok _, .error _ => pure "rejected"
   | .ok maxSpeed, .ok v =>
-    let s0 := v.initialState
+    let s0 := v.initialStateWith socOverride
     let rec go (es : List (Edge Float)) (st : VState Float × Caches Key Float) (acc : List String) :
         List String × VState Float :=
       match es with
